@@ -143,7 +143,7 @@ func IsInjected(err error) bool {
 // messages: pd turns a panic of one of its goroutines into log.Fatal, i.e. a silent exit otherwise.
 func Quiet() {
 	core := zapcore.NewCore(zapcore.NewConsoleEncoder(zap.NewDevelopmentEncoderConfig()), zapcore.Lock(os.Stderr), zapcore.FatalLevel)
-	log.ReplaceGlobals(zap.New(core), &log.ZapProperties{})
+	log.ReplaceGlobals(zap.New(core, zap.AddStacktrace(zapcore.FatalLevel)), &log.ZapProperties{})
 }
 
 // Server is one in-process PD server that is leader and (optionally) bootstrapped.
